@@ -546,6 +546,14 @@ func c12WaitGroup(p *Prog, r *Report) {
 	r.Check(ok, "C12.c", kInlineCreate+"#add-before-go", p.pos(fi.Decl), "Add(1) precedes the go statement", "the storing goroutine is started before the wait group is incremented: Close can return before the store finished")
 	if lit != nil {
 		lf := p.NewFlat(fi.Pkg, lit.Body)
+		if len(lit.Body.List) == 1 && lit.Type.Params.NumFields() == 0 {
+			// the goroutine body is a method of the client (go db.store(ctx, key, up)): splice it in
+			if es, ok := lit.Body.List[0].(*ast.ExprStmt); ok {
+				if c, ok := es.X.(*ast.CallExpr); ok && p.staticCallee(fi.Pkg, c) != nil {
+					lf = p.NewFlatInl(fi, lit.Body)
+				}
+			}
+		}
 		// the first executed node registers Done
 		first := -1
 		for _, e := range lf.Nodes[lf.Entry].Succs {
